@@ -9,7 +9,7 @@ use simcore::trace::{Fault, Reader, Record, SerdeOp, Shape, Trace, Writer, READE
 
 pub const MAX_RECORDS: usize = 8;
 pub const MAX_STREAM: usize = 160;
-pub const VALUE_CLASSES: usize = 9;
+pub const VALUE_CLASSES: usize = 11;
 
 pub struct World {
     pub table: Vec<Ops>,
@@ -55,6 +55,25 @@ pub fn value_of_class(rng: &mut Rng, class: u32, w: u32) -> u128 {
                 b[wb as usize - 1 - i] = b[i];
             }
             u128::from_le_bytes(b)
+        }
+        9 => {
+            // around a power of two / a narrower type's limits: 2^k - 1, 2^k, 2^k + 1 and their negations
+            let ks = [7u32, 8, 15, 16, 31, 32, 63, 64, w / 2 - 1, w / 2, w - 2, w - 1];
+            let k = ks[rng.below(ks.len() as u64) as usize] % w;
+            let p = 1u128 << k;
+            match rng.below(6) {
+                0 => p.wrapping_sub(1),
+                1 => p,
+                2 => p.wrapping_add(1),
+                3 => p.wrapping_neg(),
+                4 => p.wrapping_neg().wrapping_sub(1),
+                _ => p.wrapping_neg().wrapping_add(1),
+            }
+        }
+        10 => {
+            // every byte one of the usual suspects
+            let pal = [0x00u8, 0x01, 0x7f, 0x80, 0xfe, 0xff];
+            (0..wb).fold(0u128, |a, i| a | ((pal[rng.below(6) as usize] as u128) << (8 * i)))
         }
         _ => rng.u128(),
     };
@@ -113,6 +132,10 @@ pub fn generate(world: &World, seed: u64, run: u64) -> Trace {
             Shape::None => 0,
             Shape::Rec => 1 + rng.below(2) as usize,
             Shape::Sum => rng.below(3) as usize,
+            // now and then a vector long enough for the two-byte length prefix (narrow layouts only,
+            // so that the stream stays within its bound)
+            Shape::Vec if ops.w <= 16 && i == 0 && rng.chance(1, 8) => 64 + rng.below(6) as usize,
+            Shape::Append if ops.w == 8 && i == 0 && rng.chance(1, 8) => 62 + rng.below(5) as usize,
             Shape::Vec => rng.below(5) as usize,
             Shape::Append => rng.below(7) as usize,
         };
@@ -126,7 +149,8 @@ pub fn generate(world: &World, seed: u64, run: u64) -> Trace {
         if shape == Shape::Append {
             let mut left = nvals;
             while left > 0 {
-                let k = 1 + rng.below(left.min(3) as u64) as usize;
+                // long appends go in big steps first so that the prefix grows from one to two bytes mid-way
+                let k = if left > 8 { left - 3 - rng.below(4) as usize } else { 1 + rng.below(left.min(3) as u64) as usize };
                 splits.push(k as u8);
                 left -= k;
             }
